@@ -6,7 +6,7 @@ from gen import outline_font
 from ufo import build, err_kind, rat
 
 ID = "C04"
-THEOREM = "Ufo2ft.C04.C04_numLong / C04_decode / C04_header / C04_hmtx / C04_vmtx / C04_fontBox / C04_charRange / C04_vorg / C04_toInt / C04_cffWidths / C04_cffWidths_hmtx"
+THEOREM = "Ufo2ft.C04.C04_numLong / C04_decode / C04_header / C04_hmtx / C04_vmtx / C04_fontBox / C04_charRange / C04_vorg / C04_toInt / C04_roundBox_none / C04_roundBox_point / C04_hmtx_point / C04_cffWidths / C04_cffWidths_hmtx"
 N = {"quick": 300, "thorough": 5000}
 RULE = ("exhaustive: every advance sequence of length 1..5 (quick) / 1..6 (thorough) over {0,5,7} as a real font through "
         "Outline{TTF,OTF}Compiler (numberOfHMetrics); random: line-segment fonts with empty glyphs, translated components, "
@@ -22,7 +22,15 @@ RULE = ("exhaustive: every advance sequence of length 1..5 (quick) / 1..6 (thoro
         "four zero/non-zero combinations of (defaultWidthX, nominalWidthX) occur in every quick run. For every OTF font (all streams) "
         "the two Private-dict width operators as written (absent vs present) and the raw width operand of every charstring (own "
         "T2WidthExtractor run, nothing decoded by fontTools) are observed in memory and after save/reload; non-trivial there = at least "
-        "two distinct advances.")
+        "two distinct advances. "
+        "Degenerate-outline stream (tag degen, max(30, n/4) extra fonts of the random stream, 70 % TTF): 1..3 glyphs that no composite "
+        "references get an outline whose box has zero width and/or zero height: a one-point open ('move') contour, a closed contour of "
+        "1..4 coincident points, (TTF) 2..4 distinct fractional points that round to one integer point, a horizontal or a vertical "
+        "2-point segment; the point lies off both axes (60 %), on the y axis (x = 0) or on the x axis (y = 0), coordinates from "
+        "{+-1, +-30, 500, 1100, -250, random in -600..1400}, often outside every other glyph's box, advance 0/600/1200 or random; "
+        "the lsb/tsb rows, the header extrema (which must include such a glyph: span 0) and the font box are checked like for every "
+        "other glyph. The all-zero box (0,0,0,0) of a point AT the origin is not generated: it is the compilers' own sentinel for "
+        "'no outline' (EMPTY_BOUNDING_BOX), where lsb = 0 = xMin anyway. non-trivial there = a degenerate glyph plus at least one other glyph.")
 ASSUMED = ["glyph outline bounds as computed by fontTools (calcBounds/recalcBounds) enter the model as input (measured independently with BoundsPen)",
            "the pair (defaultWidthX, nominalWidthX) when fontinfo sets neither is fontTools.cffLib.width.optimizeWidths' choice: an input of the model "
            "(recomputed by the harness from the rounded advances of the glyph set); the theorem holds for ANY pair",
@@ -36,7 +44,9 @@ def gen(rng, n, mode):
     seqs = [list(t) for k in range(1, maxlen + 1) for t in itertools.product([0, 5, 7], repeat=k)]
     for i in range(0, len(seqs), 40):
         yield {"kind": "adv", "seqs": seqs[i:i + 40], "otf": (i // 40) % 2 == 1}
-    for i in range(n):
+    ndegen = max(30, n // 4)
+    for i in range(n + ndegen):
+        degen = i >= n     # degenerate-outline stream (tag degen), see _degenerate
         fd = outline_font(rng, kinds=("line",), grid=8 if rng.random() < 0.5 else 1, half=0.3, mats=("id",), maxdepth=2,
                           pcomp=0.35, mixed=0.2, widthhalf=0.3)
         # advances: force runs of equal trailing advances often
@@ -67,10 +77,14 @@ def gen(rng, n, mode):
         seen = set()
         for g in fd["glyphs"]:
             g["unicodes"] = [u for u in dict.fromkeys(g["unicodes"]) if not (u in seen or seen.add(u))]
-        otf = rng.random() < 0.5
-        yield {"kind": "font", "fd": fd, "otf": otf, "tol": rng.choice([None, None, 0, 0.25, 0.5]) if otf else None,
-               "vertical": rng.random() < 0.5, "lib": rng.choice(["ufoLib2", "defcon"]), "post3": otf and rng.random() < 0.3,
-               "notdef": rng.random() < 0.3}
+        otf = rng.random() < (0.3 if degen else 0.5)
+        case = {"kind": "font", "fd": fd, "otf": otf, "tol": rng.choice([None, None, 0, 0.25, 0.5]) if otf else None,
+                "vertical": rng.random() < 0.5, "lib": rng.choice(["ufoLib2", "defcon"]), "post3": otf and rng.random() < 0.3,
+                "notdef": rng.random() < 0.3}
+        if degen:
+            _degenerate(rng, fd, used, otf)
+            case["degen"] = True
+        yield case
     # CFF width stream: OTF fonts whose advance distribution / fontinfo decides the pair
     # (defaultWidthX, nominalWidthX); every combination of zero / non-zero for the two Private operators
     for i in range(max(20, n // 3)):
@@ -97,6 +111,40 @@ def gen(rng, n, mode):
                    rng.choice([None, 0, 0, 0.25, -0.5, 533, common, rng.choice(ws), -rng.randrange(1, 300), rng.randrange(1, 1000)])]
         yield {"kind": "font", "fd": fd, "otf": True, "tol": rng.choice([None, None, 0.25]), "vertical": rng.random() < 0.2,
                "lib": rng.choice(["ufoLib2", "defcon"]), "post3": False, "notdef": rng.random() < 0.3, "psw": psw, "cffw": True}
+
+
+def _degenerate(rng, fd, used, otf):
+    """give 1..3 glyphs (not used as component bases) an outline whose box has zero width and/or zero height:
+    a single point (one-point 'move' contour = stray anchor of old sources; closed contour collapsed onto one point;
+    TTF only: points that differ before rounding and round to one integer point), a horizontal or a vertical segment.
+    The point/segment sits on the x axis, on the y axis or off both, but never gives the all-zero box (0,0,0,0):
+    that value is the compilers' sentinel for "no outline" (EMPTY_BOUNDING_BOX) and is not generated (see RULE)."""
+    cands = [g for g in fd["glyphs"] if g["name"] not in used] or fd["glyphs"][-1:]
+    for g in rng.sample(cands, min(len(cands), rng.choice([1, 1, 2, 3]))):
+        nz = lambda: rng.choice([1, -1, 30, -30, 500, 1100, -250, rng.randrange(-600, 1400) or 7])
+        x, y = rng.choice([(nz(), nz()), (nz(), nz()), (nz(), nz()), (0, nz()), (nz(), 0)])
+        k = rng.choice(["point", "point", "collapsed", "collapsed", "rounds", "hseg", "vseg"])
+        if k == "rounds" and otf:
+            k = "collapsed"
+        if k == "point":
+            c = [[x, y, "move"]]
+        elif k == "collapsed":
+            c = [[x, y, "line"] for _ in range(rng.choice([1, 2, 3, 4]))]
+        elif k == "rounds":     # otRound(v + d) == v for integer v and d in [-0.5, 0.5)
+            c = [[x + dx, y + dy, "line"] for dx, dy in rng.sample([(0, 0), (0.25, 0), (-0.5, 0.25), (-0.25, -0.5), (0.25, 0.25)],
+                                                                 rng.choice([2, 3, 4]))]
+        elif k == "hseg":
+            x2 = x + rng.choice([1, 100, -300])
+            if y == 0 and min(x, x2) == 0 == max(x, x2):
+                x2 = 5
+            c = [[x, y, "line"], [x2, y, "line"]]
+        else:
+            c = [[x, y, "line"], [x, y + rng.choice([1, 100, -300]), "line"]]
+        g["contours"] = [c]
+        g["components"] = []
+        g["degen"] = k
+        if rng.random() < 0.5:
+            g["width"] = rng.choice([0, 600, 1200])
 
 
 def _header(t, v):
@@ -283,6 +331,9 @@ def run(case):
         a["width"] == b["width"] for a, b in zip(fd["glyphs"], fd["glyphs"][1:])))
     tags = ["otf" if case["otf"] else "ttf", "tol:" + str(case["tol"]), "vertical" if case["vertical"] else "horizontal",
             case["lib"], "post3" if case["post3"] else "post2"]
+    if case.get("degen"):
+        tags = ["degen"] + sorted({"degen:" + g["degen"] for g in fd["glyphs"] if g.get("degen")}) + tags
+        nontrivial = any(g.get("degen") for g in fd["glyphs"]) and len(fd["glyphs"]) > 1
     psw = case.get("psw")
     if case.get("cffw"):
         ws = {g["width"] for g in fd["glyphs"]}
@@ -321,14 +372,18 @@ def shrink(case):
 
 LEVEL_TEXT = ("Proved for all inputs (Lean): the pre-computed long-metric count is in range, minimal, and a table written with it decodes "
               "back to the same advances; advanceMax / min bearings / max extent are the max/min over the right glyph subsets; hmtx/vmtx rows; "
-              "the font box is the min/max of the glyph boxes; CFF box rounding encloses or rounds within tolerance; OS/2 char range; "
+              "the font box is the min/max of the glyph boxes; CFF box rounding encloses or rounds within tolerance; a glyph box is dropped "
+              "(treated as 'no outline') exactly when all four rounded extrema are 0, so a one-point outline off the origin keeps its zero-size "
+              "box and its bearings (C04_roundBox_none / _point / C04_hmtx_point); OS/2 char range; "
               "post extra names; VORG default is a most frequent origin with exactly the differing glyphs as records; the advances stored in the 'CFF ' "
               "table (Private defaultWidthX/nominalWidthX as written by setupTable_CFF + the width operand getCharStringForGlyph puts in each "
               "charstring) read back as the rounded source advances = the hmtx advances, for every default/nominal pair. Tied to the code by "
               "exhaustive advance sequences + random fonts observed both in memory and after save/reload.")
 LEVEL_NOTE = ("Trusted: Lean kernel + standard axioms; correspondence harness; glyph outline bounds are fontTools' (input to the model, "
               "measured independently with BoundsPen); byte idempotence of save/load/save is measured, not proved; only line segments and "
-              "translated components are generated here (curve extrema are fontTools' business). CFF widths: modelled and proved (not predicate-only); "
+              "translated components are generated here (curve extrema are fontTools' business); degenerate outlines (single point, collapsed contour, "
+              "points merging by rounding, axis-parallel segment) are generated in a stream of their own, a point exactly at the origin is not "
+              "(its all-zero box is indistinguishable from the empty-glyph sentinel in both compilers). CFF widths: modelled and proved (not predicate-only); "
               "the optimiser's pair is an input; on the not-yet-saved font ufo2ft pre-fills Private.rawDict with the CFF defaults, so there an "
               "operator holding 0 is counted as absent (after reload absence is observed literally); only optimizeCFF=False charstrings are "
               "observed here (what specialisation/subroutinisation do to the operand is C12's subject, which models the same two code sites).")
